@@ -187,7 +187,7 @@ fn graph_case(item: u64, rng: &mut Rng, acc: &mut Acc, quick: bool) {
                 acc.violate(item, "rescaling", "sector:rescaling", detail(json!({"unrescaled": fjv(&lg.x_unscaled), "rescaled": fjv(&lg.x), "failures": rf})));
                 continue;
             }
-            if item < 2 && ne >= 3 {
+            if acc.samples.is_empty() {
                 acc.sample(json!({"graph": su.g.describe(), "x": x, "order": walk.order, "unrescaled": lg.x_unscaled, "rescaled": lg.x, "u_trop": lg.u_trop, "v_trop": lg.v_trop}));
             }
         }
